@@ -329,9 +329,33 @@ func applyDocEdit(doc *JV, op Op) bool {
 				return true
 			}
 		}
+	case "inboxweird":
+		for _, pk := range []string{"customer", "supplier"} {
+			if p := doc.Get(pk); p != nil {
+				p.Set("inboxes", &JV{K: 'a', A: []*JV{{K: 'o', M: []JM{{"code", JStr(op.S2)}}}}})
+				return true
+			}
+		}
 	case "taxidweird":
 		if p := doc.Get("supplier"); p != nil && p.Get("tax_id") != nil && p.Get("tax_id").Get("code") != nil {
 			c := p.Get("tax_id").Get("code").Str()
+			cc := p.Get("tax_id").Get("country").Str()
+			switch op.I % 3 {
+			case 1:
+				// the country prefix typed into the code, once or twice
+				p.Get("tax_id").Set("code", JStr(cc+cc+c))
+				return true
+			case 2:
+				// the other spelling of the country (Greece: GR / EL) with the prefix of the first
+				if cc == "EL" || cc == "GR" {
+					other := map[string]string{"EL": "GR", "GR": "EL"}[cc]
+					p.Get("tax_id").Set("country", JStr(other))
+					p.Get("tax_id").Set("code", JStr(cc+c))
+					return true
+				}
+				p.Get("tax_id").Set("code", JStr(cc+" "+c))
+				return true
+			}
 			if len(c) > 3 {
 				p.Get("tax_id").Set("code", JStr(" "+strings.ToLower(c[:2])+"-"+c[2:len(c)-2]+"."+c[len(c)-2:]+" "))
 				return true
@@ -370,7 +394,7 @@ func applyDocEdit(doc *JV, op Op) bool {
 	return false
 }
 
-var editKinds = []string{"qty", "price", "rmline", "dupline", "note", "rounding", "custname", "code", "breakdown", "linedisc", "linecharge", "docdisc", "advances", "codeweird", "addrweird", "taxidweird", "amountprec", "mixrates", "mixrates", "rmdefaulted", "sloppy", "sloppy", "sloppy"}
+var editKinds = []string{"qty", "price", "rmline", "dupline", "note", "rounding", "custname", "code", "breakdown", "linedisc", "linecharge", "docdisc", "advances", "codeweird", "addrweird", "taxidweird", "amountprec", "mixrates", "mixrates", "rmdefaulted", "sloppy", "sloppy", "sloppy", "inboxweird"}
 
 func genEdit(r *rand.Rand, id int) Op {
 	k := Pick(r, editKinds)
@@ -402,6 +426,8 @@ func genEdit(r *rand.Rand, id int) Op {
 		op.S2 = Pick(r, []string{"type", "currency", "$regime", "type", "tax"})
 	case "sloppy":
 		op.I, op.J = int64(r.IntN(1<<16)), int64(r.IntN(7))
+	case "inboxweird":
+		op.S2 = Pick(r, []string{"0088:0192:123456", "0088:4012345678901", " 9915:abc ", "ab1234:xyz", "1234:"})
 	}
 	return op
 }
